@@ -22,6 +22,7 @@ import re
 
 from ..core import (AnalysisError, Report, call_name, dotted, find_class, find_func, need,
                     norm, short, parent, ancestors)
+from ..pathcond import PathCond, entails as pc_entails, parse as pc_parse, show as pc_show
 from ..flow import Flow, MustFacts, Disjunctive, each, each_exit
 from ..effects import Effects, MODELS_PKG
 from ..index import (CallGraph, ClassInfo, FuncInfo, Index, class_decorators, read_routes,
@@ -144,36 +145,34 @@ def check_role_decorators(rep: Report) -> None:
                 inner = n
         inner = need(inner, f'{DECOS}::{name}.decorated_function')
         construct = f'{DECOS}::{name}'
-        required = {
-            'authenticated': f'not {user_var}.is_authenticated',
-            'admin': f'admin and (not {user_var}.is_admin)',
-            'permission': f'permission and (not {user_var}.has_permission(permission))',
+        # at every call of the wrapped view the path condition must entail the three role clauses,
+        # however the tests are written (early returns, if/elif, one merged test, an extracted helper)
+        goals = {
+            'authenticated': f'{user_var}.is_authenticated',
+            'admin': f'(not admin) or {user_var}.is_admin',
+            'permission': f'(not permission) or {user_var}.has_permission(permission)',
         }
+        dom = PathCond()
+        calls = [0]
 
-        def tg(test, truth):
-            return [norm(test)] if not truth else []
-
-        def on_stmt(st, s, _c=construct, _req=required):
+        def on_stmt(st, states, _c=construct, _goals=goals):
             if isinstance(st, (ast.If, ast.While, ast.For, ast.With, ast.Try)):
                 return
             for c in ast.walk(st):
                 if isinstance(c, ast.Call) and norm(c.func) == 'func':
-                    for label, test in _req.items():
-                        want = norm(ast.parse(test, mode='eval').body)
-                        if want in s:
-                            rep.ok(rid, _c, label)
+                    calls[0] += 1
+                    for label, gtxt in _goals.items():
+                        goal = pc_parse(ast.parse(gtxt, mode='eval').body)
+                        bad = [x for x in states if pc_entails(x[0], goal) is not True]
+                        if not bad:
+                            rep.ok(rid, _c, label, f'every path to the view implies `{gtxt}`')
                         else:
                             rep.fail(rid, _c, label,
-                                     f'the wrapped view is called on a path that has not passed '
-                                     f'`if {want}: <refuse>`', c)
-        # each refusal branch must return
-        for n in ast.walk(inner):
-            if isinstance(n, ast.If) and any(norm(n.test) == norm(ast.parse(t, mode='eval').body)
-                                             for t in required.values()):
-                if not isinstance(n.body[-1], (ast.Return, ast.Raise)):
-                    rep.fail(rid, construct, f'refusal:{norm(n.test)}',
-                             'refusal branch does not return', n)
-        Flow(MustFacts(lambda st: [], test_gen=tg), on_stmt=on_stmt).run(inner, frozenset())
+                                     f'the wrapped view is called on a path that does not imply `{gtxt}` '
+                                     f'(path condition: {pc_show(bad[0][0])[:160]})', c)
+        Flow(Disjunctive(dom, cap=256), on_stmt=on_stmt).run(inner, [PathCond.initial()])
+        if not calls[0]:
+            raise AnalysisError(f'{construct}: the wrapped view is never called')
     # role predicates
     ut = rep.repo.tree(USER)
     ucls = need(find_class(ut, 'User'), f'{USER}::User')
@@ -203,21 +202,26 @@ def check_role_decorators(rep: Report) -> None:
         return ['checked'] if any(isinstance(c, ast.Call) and call_name(c) == 'CsrfProtection.check'
                                   for c in ast.walk(st)) else []
 
-    def tg2(test, truth):
-        return ['optional-none'] if truth and norm(test) == 'token is None and optional' else []
+    seen = [0]
 
-    def on_stmt2(st, s):
+    def on_stmt2(st, states):
         if isinstance(st, (ast.If, ast.While, ast.For, ast.With, ast.Try)):
             return
         for c in ast.walk(st):
             if isinstance(c, ast.Call) and norm(c.func) == 'func':
+                seen[0] += 1
                 key = f'func() after check [{short(st, 40)}]'
-                if 'checked' in s or 'optional-none' in s:
+                goal = pc_parse(ast.parse('token is None and optional', mode='eval').body)
+                bad = [x for x in states if 'checked' not in x[2] and pc_entails(x[0], goal) is not True]
+                if not bad:
                     rep.ok(rid, construct, key)
                 else:
                     rep.fail(rid, construct, key,
-                             'the wrapped view runs on a path without CsrfProtection.check', c)
-    Flow(MustFacts(gen, test_gen=tg2), on_stmt=on_stmt2).run(inner, frozenset())
+                             'the wrapped view runs on a path without CsrfProtection.check that is not the '
+                             f'`token is None and optional` case (path condition: {pc_show(bad[0][0])[:160]})', c)
+    Flow(Disjunctive(PathCond(gen=gen), cap=256), on_stmt=on_stmt2).run(inner, [PathCond.initial()])
+    if not seen[0]:
+        raise AnalysisError('csrf_token_required: the wrapped view is never called')
 
 
 # --------------------------------------------------------------------------
